@@ -11,6 +11,7 @@ FRAME = [('frame_s', ('C06', 'C07'), 'mut_ref_future(final(self).s) == mut_ref_f
 
 def unit():
     items = [
+        Sel('type BeltCtr'),
         Sel('struct BeltCtrCore'),
         Sel('struct Closure', inside='process_with_backend'),
         Sel('impl BlockSizeUser for Closure', inside='process_with_backend'),
@@ -123,4 +124,4 @@ def unit():
 '''}),
         }),
     ]
-    return Unit('belt', prelude=K.PRELUDE_BLOCK, spec=['steps.rs'], mods=K.DEPS() + [Mod('belt_lib', 'belt-ctr/src/lib.rs', items=items)])
+    return Unit('belt', prelude=K.PRELUDE_BLOCK, spec=['steps.rs', 'wrapper_defs.rs'], mods=K.DEPS(wrapper=True) + [Mod('belt_lib', 'belt-ctr/src/lib.rs', items=items)])
